@@ -192,6 +192,46 @@ func isIntKind(v reflect.Value) bool {
 	return false
 }
 
+// isIntegerKind reports whether v is of a signed or an unsigned integer kind.
+func isIntegerKind(v reflect.Value) bool {
+	return isIntKind(v) || isUint(v.Kind())
+}
+
+// compareIntegers orders two integers of any signedness exactly: -1, 0 or 1.
+func compareIntegers(lhsV, rhsV reflect.Value) int {
+	// an unsigned value beyond the int64 range is greater than every int64
+	lhsBig := isUint(lhsV.Kind()) && lhsV.Uint() > 1<<63-1
+	rhsBig := isUint(rhsV.Kind()) && rhsV.Uint() > 1<<63-1
+	switch {
+	case lhsBig && rhsBig:
+		if lhsV.Uint() < rhsV.Uint() {
+			return -1
+		} else if lhsV.Uint() > rhsV.Uint() {
+			return 1
+		}
+		return 0
+	case lhsBig:
+		return 1
+	case rhsBig:
+		return -1
+	}
+	lhs, rhs := toInt64(lhsV), toInt64(rhsV)
+	if lhs < rhs {
+		return -1
+	} else if lhs > rhs {
+		return 1
+	}
+	return 0
+}
+
+func isUint(k reflect.Kind) bool {
+	switch k {
+	case reflect.Uint, reflect.Uint8, reflect.Uint16, reflect.Uint32, reflect.Uint64, reflect.Uintptr:
+		return true
+	}
+	return false
+}
+
 func isNum(v reflect.Value) bool {
 	switch v.Kind() {
 	case reflect.Int, reflect.Int8, reflect.Int16, reflect.Int32, reflect.Int64,
@@ -303,6 +343,11 @@ func equal(lhsV, rhsV reflect.Value) bool {
 		lhsIsFloat := lhsKind == reflect.Float32 || lhsKind == reflect.Float64
 		rhsIsFloat := rhsKind == reflect.Float32 || rhsKind == reflect.Float64
 		if !lhsIsFloat && !rhsIsFloat {
+			if isUint(lhsKind) != isUint(rhsKind) && (toInt64(lhsV) < 0 || toInt64(rhsV) < 0) {
+				// an unsigned value beyond the int64 range (it reads as a negative
+				// int64) and a negative value equal no value of the other signedness
+				return false
+			}
 			return toInt64(lhsV) == toInt64(rhsV)
 		}
 		// when both are same kind, direct comparison is safe
@@ -621,7 +666,8 @@ func precedenceOfKinds(kind1 reflect.Kind, kind2 reflect.Kind) reflect.Kind {
 			return kind2
 		}
 		return kind1
-	case reflect.Int, reflect.Int8, reflect.Int16, reflect.Int32, reflect.Int64:
+	case reflect.Int, reflect.Int8, reflect.Int16, reflect.Int32, reflect.Int64,
+		reflect.Uint, reflect.Uint8, reflect.Uint16, reflect.Uint32, reflect.Uint64, reflect.Uintptr:
 		switch kind2 {
 		case reflect.String, reflect.Float64, reflect.Float32:
 			return kind2
